@@ -540,6 +540,31 @@ def run(case):
                     got = np.asarray(fn_(buf), dtype=float)
                     cnt["trans"] += 1
                     cmp(f"out-history/{flab}/{k_}/out={hist}", f"{flab}.{k_} with an out= buffer that held other data returns the same values as without out=", got, refs[k_], nt=False)
+                # result buffers in another memory layout (Fortran-ordered, transposed view of a C array)
+                for lay in ("F", "transposed-view"):
+                    buf = np.asfortranarray(np.full_like(refs[k_], 2.5)) if lay == "F" else np.full(refs[k_].shape[::-1], 2.5).T
+                    try:
+                        got = np.asarray(fn_(buf), dtype=float)
+                    except Exception as ex:  # noqa  (a layout the method refuses loudly is not judged)
+                        cnt.setdefault("notes", []).append(f"{flab}.{k_} out layout {lay}: {ex!r}"[:120])
+                        continue
+                    cnt["trans"] += 1
+                    cmp(f"out-layout/{flab}/{k_}/out={lay}", f"{flab}.{k_} with an out= buffer in another memory layout returns the same values as without out=", got, refs[k_], nt=False)
+            # the order= argument of extract (memory layout of the result): same values for every order x flag combination
+            for order_, gr_, sy_, ai_ in itertools.product(("C", "F", "A", "K"), (True, False), (False, True), (True, False)):
+                if not gr_ and (sy_ or not ai_):
+                    continue
+                ref_ = np.asarray(fo.extract(grad=gr_, sym=sy_, add_identity=ai_), dtype=float)
+                got = np.asarray(fo.extract(grad=gr_, sym=sy_, add_identity=ai_, order=order_), dtype=float)
+                gotc = np.asarray(cont.extract(grad=gr_, sym=sy_, add_identity=ai_, order=order_)[0], dtype=float)
+                cnt["trans"] += 3
+                lab_ = f"extract-order/{flab}/grad={gr_},sym={sy_},add_identity={ai_}/order={order_}"
+                cmp(lab_, f"{flab}.extract(order=...) returns the same values as the default order", got, ref_, nt=False)
+                cmp(lab_ + "/container", "FieldContainer.extract(order=...) returns the same values as the default order", gotc, ref_, nt=False)
+                if gr_ and ai_ and not sy_:
+                    # independent: 1 + grad
+                    g_ = np.asarray(fo.grad(), dtype=float)
+                    cmp(lab_ + "/identity", "extract(add_identity=True) = grad + 1 on the diagonal", got - g_, np.broadcast_to(np.eye(g_.shape[0])[:, :, None, None], g_.shape), nt=False)
 
     # ---- uniform-grid path
     # (the "affine" member is a uniform grid too: every cell is the same parallelepiped, not axis aligned)
